@@ -127,13 +127,13 @@ def tag(annotated, base):
     return tags
 
 
-def weave(unit, repo=None):
+def weave(unit, repo=None, variant=None):
     """returns dict(text, rules, changed, fuzzy_fns, code_lines, spec_lines, base_same)"""
     udir = os.path.join(UNITS, unit)
     cur_text, rules = run_extract(unit, repo)
     cur = [l for l in cur_text.split("\n") if l.strip()]
     base = [l for l in open(os.path.join(udir, "base.rs")).read().split("\n") if l.strip()]
-    annotated = expand_includes(os.path.join(udir, "annotated.rs"))
+    annotated = expand_includes(os.path.join(udir, f"annotated_{variant}.rs" if variant else "annotated.rs"))
     tags = tag(annotated, base)
     sm = difflib.SequenceMatcher(None, [l.strip() for l in base], [l.strip() for l in cur], autojunk=False)
     emit = {k: [] for k in range(len(base))}      # base index -> current lines emitted in its place
